@@ -105,17 +105,15 @@ def cellClose (want : Rat) (c : Cell) : Bool :=
   | some q => closeQ q want
   | none => false
 
-/-- smallest distance of an un-rounded copy number to a rounding boundary -/
-def slackOf (cfg : Cfg) (rows : List Seg) (vcf : Bool) : Rat :=
-  if cfg.hasCn then 1
-  else
-    let first := firstChrom rows
-    rows.foldl (fun m r =>
-      let q : Rat :=
-        if vcf then
-          ((refExpect cfg.ploidy cfg.hapX cfg.female (classOf first cfg.par r.chrom r.s r.e)).1 : Rat) * r.t
-        else (refCopiesPure r.chrom cfg.ploidy cfg.hapX : Rat) * r.t
-      min m (halfSlack q)) 1
+/-- per row: distance of the un-rounded copy number to a rounding boundary -/
+def slackOf (cfg : Cfg) (rows : List Seg) (vcf : Bool) : Json :=
+  let first := firstChrom rows
+  arrJ (rows.map fun r =>
+    if cfg.hasCn then ratJ 1 else
+    let q : Rat :=
+      min (halfSlack (((refExpect cfg.ploidy cfg.hapX cfg.female (classOf first cfg.par r.chrom r.s r.e)).1 : Rat) * r.t))
+          (if vcf then 1 else halfSlack ((refCopiesPure r.chrom cfg.ploidy cfg.hapX : Rat) * r.t))
+    ratJ q)
 
 def clauses (l : List (String × Bool)) : Json :=
   arrJ ((l.filter (fun p => !p.2)).map (fun p => strJ p.1)).eraseDups
@@ -157,9 +155,9 @@ def handleExport (op : String) (inp : Json) (impl : Option Json) : R (Option Jso
         pure (clauses [
           (nm, listed),
           ("bed_coordinates_0based", !listed || all2 (fun (g : BedRow) (r : Seg) => g.s == r.s && g.e == r.e) got want),
-          ("bed_integer_copy_number", !listed || all2 (fun (g : BedRow) (r : Seg) => g.ncopies == ncopiesBed cfg r) got want),
+          ("bed_integer_copy_number", !listed || all2 (fun (g : BedRow) (r : Seg) => g.ncopies == ncopiesOf cfg first r) got want),
           ("bed_label", !listed || all2 (fun (g : BedRow) (r : Seg) => g.label == bedLabel label r) got want)]))
-    pure (some (obj [("out", arrJ (out.map bedJ)), ("slack", ratJ (slackOf cfg rows false)), ("spec", spec)]))
+    pure (some (obj [("out", arrJ (out.map bedJ)), ("slack", slackOf cfg rows false), ("spec", spec)]))
   | "export_vcf" =>
     let cfg ← getCfg inp
     let rows ← getList getSeg (← fld inp "rows")
@@ -177,7 +175,7 @@ def handleExport (op : String) (inp : Json) (impl : Option Json) : R (Option Jso
         let want := rows.filter (vcfKeep cfg first)
         let one := got.length == want.length &&
           all2 (fun (g : VcfRec) (r : Seg) => g.chrom == r.chrom) got want
-        let isLoss (r : Seg) : Bool := decide (ncopiesVcf cfg first r < expectedCopies cfg first r)
+        let isLoss (r : Seg) : Bool := decide (ncopiesOf cfg first r < expectedCopies cfg first r)
         let per (f : VcfRec → Seg → Bool) : Bool := !one || all2 f got want
         if !wf then pure (clauses []) else
         pure (clauses [
@@ -190,10 +188,10 @@ def handleExport (op : String) (inp : Json) (impl : Option Json) : R (Option Jso
           ("vcf_svlen_signed_length", per (fun g r =>
             g.svlen == (if isLoss r then -(r.e - r.s) else r.e - r.s))),
           ("vcf_sample_carries_cn_for_gains", per (fun g r =>
-            isLoss r || sampleField g "CN" == some (toString (ncopiesVcf cfg first r)))),
+            isLoss r || sampleField g "CN" == some (toString (ncopiesOf cfg first r)))),
           ("vcf_sample_column_named", gotCol == col)]))
     pure (some (obj [("out", obj [("records", arrJ (out.map vcfJ)), ("sample_col", strJ col)]),
-                     ("slack", ratJ (slackOf cfg rows true)), ("wf", boolJ wf), ("spec", spec)]))
+                     ("slack", slackOf cfg rows true), ("wf", boolJ wf), ("spec", spec)]))
   | "export_seg" =>
     let samples ← getList getSegSample (← fld inp "samples")
     let enumerate ← getBool (← fld inp "enumerate")
